@@ -6,9 +6,9 @@ namespace ALV.C01
 
 /-- mapping a generator expression over a source: `n` calls of `next` deliver the mapped items of the
     source's `n` calls of `next` and leave the source exactly where those `n` calls leave it -/
-theorem Iter.runS_mapc (f : Name) (pre post : List Term) : ∀ (n : Nat) (a : Iter),
-    (Iter.mapc f pre post a).runS n =
-      ((a.runS n).1.map (fun x => Term.app f (pre ++ x :: post)), .mapc f pre post (a.runS n).2) := by
+theorem Iter.runS_mapc (g : Bool) (f : Name) (pre post : List Term) : ∀ (n : Nat) (a : Iter),
+    (Iter.mapc g f pre post a).runS n =
+      ((a.runS n).1.map (fun x => Term.app f (pre ++ x :: post)), .mapc g f pre post (a.runS n).2) := by
   intro n
   induction n with
   | zero => intro a; rfl
@@ -69,7 +69,7 @@ theorem ECall.positional_eq (c : ECall) : c.isPositional = c.positional := rfl
 /-- the generator expression of the wrapper applies the function with the item in the place of the
     broadcast argument -/
 theorem ECall.data_spec (c : ECall) (hf : c.found = true) :
-    ∃ pre post, c.data = .mapc c.f pre post c.arg.iter ∧
+    ∃ pre post, c.data = .mapc true c.f pre post c.arg.iter ∧
       ∀ x, Term.app c.f (pre ++ x :: post) = c.callWith x := by
   unfold ECall.data ECall.callWith
   rw [← ECall.positional_eq]
@@ -101,11 +101,11 @@ theorem ECall.plainCall_spec (c : ECall) (hf : c.found = true) : c.plainCall = c
   cases hp : c.isPositional with
   | true =>
     simp only [hp, if_true] at hd ⊢
-    injection hd with _ h1 h2 _
+    injection hd with _ _ h1 h2 _
     rw [h1, h2]
   | false =>
     simp only [hp, Bool.false_eq_true, if_false] at hd ⊢
-    injection hd with _ h1 h2 _
+    injection hd with _ _ h1 h2 _
     rw [h1, h2]
 
 end ALV.C01
